@@ -176,6 +176,7 @@ class Solver:
         self.smt2_samples = []
         self.cross = []            # (smt2 text, verdict) for the cross-solver comparison
         self.cross_max = 3
+        self.retries = 0
 
     def check(self, formulas, want_model=False, logic=None, keep_sample=False):
         s = z3.Solver() if logic is None else z3.SolverFor(logic)
@@ -191,6 +192,15 @@ class Solver:
             s.add(to_z3(f) if isinstance(f, bool) else f)
         t0 = time.time()
         r = s.check()
+        if r == z3.unknown:
+            # one retry with a longer limit and another seed (a loaded machine must not turn into a verdict)
+            s.set("timeout", self.timeout_ms * 4)
+            try:
+                s.set("random_seed", self.seed + 7919)
+            except Exception:
+                pass
+            self.retries += 1
+            r = s.check()
         dt = time.time() - t0
         self.n += 1
         self.secs += dt
